@@ -1,3 +1,4 @@
+import tempfile
 """Per-property checks.  Each function check_Cnn(work, tier, seed) returns an
 Outcome plus the evidence parameters; vcheck dispatches here."""
 import json, os, time, random, subprocess, shutil
@@ -634,9 +635,17 @@ def huge_requests(work, b, pid, seed, out, jobs):
     """jobs: list of gen_huge argument tuples; the driver processes run side by side (each touches
     about gib GiB of output), every trace is validated by TLC"""
     from concurrent.futures import ThreadPoolExecutor
+    import fcntl
     scs = [gen_huge(seed, *j) for j in jobs]
-    with ThreadPoolExecutor(max_workers=3) as ex:
-        res = list(ex.map(lambda sc: run_drv(b, sc.text(), timeout=1500), scs))
+    # each driver touches about 4 GiB: at most three at a time on the whole machine, whatever else runs
+    # (other checks, sweeps, campaigns) - a lock file outside /verif and /repo, nothing is kept in it
+    with open(os.path.join(tempfile.gettempdir(), "verif-huge.lock"), "w") as lk:
+        fcntl.flock(lk, fcntl.LOCK_EX)
+        try:
+            with ThreadPoolExecutor(max_workers=3) as ex:
+                res = list(ex.map(lambda sc: run_drv(b, sc.text(), timeout=3000), scs))
+        finally:
+            fcntl.flock(lk, fcntl.LOCK_UN)
     lines = []
     for j, sc, ln in zip(jobs, scs, res):
         lines += conform_lines(work, pid, seed, ln, sc.text(), out, tag="-huge-%s-%s-%d" % (j[1], j[0], j[2]))
